@@ -360,9 +360,8 @@ impl<D: StorageData, const C: usize> MapData<u64, u64, D> for ArrMap<C> {
     fn resize(&mut self, _s: &mut Storage<D>, c: u64) -> Result<(), DbError> {
         kani::assume(c as usize <= C);
         let c0 = c as usize;
+        // slots beyond the capacity read as Empty when the table grows again
         self.states[c0..].fill(0);
-        self.keys[c0..].fill(0);
-        self.values[c0..].fill(0);
         self.cap = c;
         Ok(())
     }
